@@ -98,7 +98,9 @@ func modelPath() string {
 	if p := os.Getenv("UGOMODEL"); p != "" {
 		return p
 	}
-	return "/verif/lean/.lake/build/bin/ugomodel"
+	exe, _ := os.Executable()
+	// <verif>/bin/corr -> <verif>/lean/.lake/build/bin/ugomodel
+	return filepath.Join(filepath.Dir(filepath.Dir(exe)), "lean", ".lake", "build", "bin", "ugomodel")
 }
 
 func runModel(lines []string) ([]string, error) {
